@@ -216,6 +216,10 @@ class Planner:
                 a = self.act()
                 if a["k"] not in ("softmax",):
                     items.append(a)
+            if self.sw["ln"] and r.random() < 0.2:
+                # LayerNorm over the trailing dims of the feature map (multi-dimensional normalized_shape)
+                shape = r.choice([[c, h, wd], [h, wd], [wd]])
+                items.append({"k": "ln", "shape": shape, "affine": r.random() < 0.85, "bias": r.random() < 0.8})
         if r.random() < 0.4:
             items.append({"k": "flat"})
             items.append({"k": "lin", "i": c * h * wd, "o": r.choice([4, 8, 10]), "bias": True})
@@ -687,7 +691,7 @@ def plan_c08(P):
     r = P.rng
     ops = []
     prelude(P, ops)
-    table = [("forward", 8), ("calib", 2), ("freeze", 1.5), ("saveload", 1), ("wupdate", 1.5), ("newdep", 1.5), ("train", 0.7), ("deepcopy", 0.3), ("to_cpu", 0.3)]
+    table = [("forward", 8), ("calib", 2), ("freeze", 1.5), ("saveload", 1), ("wupdate", 1.5), ("newdep", 1.5), ("train", 0.7), ("deepcopy", 0.3), ("to_cpu", 0.3), ("to_dtype", 0.4)]
     lifecycle(P, ops, table, r.randint(3, 9), faults=bool(P.cfg.get("faults")))
     return ops
 
@@ -716,7 +720,7 @@ def plan_c10(P):
         if r.random() < 0.5:
             h_freeze(P, ops, a, partial_p=0.15)
             h_probe(P, ops, a, 1)
-    table = [("saveload", 8), ("load", 1.5), ("freeze", 1), ("probe", 1), ("wupdate", 0.7), ("calib", 0.7), ("state_dict", 0.7), ("newdep", 0.7), ("save", 0.7)]
+    table = [("saveload", 8), ("load", 1.5), ("freeze", 1), ("probe", 1), ("wupdate", 0.7), ("calib", 0.7), ("state_dict", 0.7), ("newdep", 0.7), ("save", 0.7), ("to_dtype", 0.4), ("deepcopy", 0.3), ("to_cpu", 0.3)]
     lifecycle(P, ops, table, r.randint(2, 6), faults=bool(P.cfg.get("faults")))
     return ops
 
